@@ -19,7 +19,8 @@ META = {
                    'monotonicity statement itself is a convergence property: bounded evaluation of per-iteration traces with '
                    'independently computed mixture log-likelihoods (cACGMM, cWMM, GMM x3, GCACGMM with unit stream weights).',
     'assumptions': ['scipy.special.logsumexp(a, axis, b) = log sum_axis b exp(a)',
-                    'EM / MM monotonicity theorems for the exact updates are cited, not machine checked'],
+                    'EM monotonicity from "the expected complete-data log-likelihood does not decrease" and optimality of the weight '
+                    'update are Lean theorems (lean/Em.lean); that each component update does not decrease its part is cited'],
 }
 DN = 'pb_bss.distribution.'
 TINY = float(np.finfo(np.float64).tiny)
@@ -247,4 +248,6 @@ def instances(tier):
     out.append(loglik_instance(2, 2, (1, 2, 2), (2,)))
     out.append(loglik_instance(2, 2, (1, 2, 1), (2,)))
     out.append(trace_bounded_instance())
+    from .common import lemma_instance
+    out.append(lemma_instance('C02', 'em', 'lemma:em-monotonicity-from-the-expected-complete-data-log-likelihood'))
     return out
